@@ -100,7 +100,7 @@ def build_unit(unit, workcopy, dropped=()):
         log.extend(ed.log)
         if spec.get("obligation"):
             fn_ob[path.split("fn ")[-1].strip()] = spec["obligation"]
-        if spec.get("contract") or spec.get("loops"):
+        if spec.get("contract") or spec.get("loops") or spec.get("table"):
             under_contract.append("%s :: %s" % (spec.get("file", ""), path))
         return ed.apply(lo, hi)
 
